@@ -249,3 +249,25 @@ Proof.
   split; [apply heap_okb_ok, H1|]. split; [|apply nodupb_sound, H3].
   intros i Hi. rewrite forallb_forall in H2. specialize (H2 i Hi). destruct (hget (hp s) i); [discriminate|discriminate].
 Qed.
+
+(* ---------- C19 law 3 at the top level: rm followed by set of the removed value restores the same attribute tree ----------
+   (as a mapping: every key reads as before; the binding moves to the end of the printed set, which is why the
+   property speaks of the attribute tree and not of the text) *)
+Lemma a_del_set_same_tree m k v m' : a_get m k = Some v -> a_del m k = Some m' ->
+  forall k', a_get (a_set m' k v) k' = a_get m k'.
+Proof.
+  intros Hg Hd k'. destruct (streq k' k) eqn:E.
+  - apply streq_eq in E. subst k'. now rewrite a_get_set_same.
+  - rewrite (a_get_set_other _ _ _ _ E). eapply a_get_del_other; eassumption.
+Qed.
+Theorem rm_then_set_same_tree s k v : map_inv s -> getitem s SRoot k = Some v ->
+  snd (set_delitem s SRoot k) = Ok tt /\
+  forall k', getitem (set_setitem (fst (set_delitem s SRoot k)) SRoot k v) SRoot k' = getitem s SRoot k'.
+Proof.
+  intros Hinv Hg. split; [eapply del_present; exact Hg|]. intros k'.
+  pose proof (map_inv_del s k Hinv) as (H1 & H2 & H3). rewrite getitem_refines, (setitem_refines _ _ _ H1 H2 H3), getitem_refines.
+  rewrite getitem_refines in Hg. pose proof (delitem_refines s k) as Hd.
+  destruct (a_del (abs s) k) as [m'|] eqn:D.
+  - destruct Hd as [_ ->]. eapply a_del_set_same_tree; eassumption.
+  - apply a_del_none_iff in D. congruence.
+Qed.
